@@ -72,7 +72,7 @@ Theorem only_excluded_not_reached lp x :
 Proof. intros H R. apply reach_defined_in_accepted in R.
   destruct R as (c & its & d & Hl & [Hr Hc] & Hd & _ & Hn).
   destruct (H c its d Hl Hd Hn) as [E|(k & Hk & [E|E])].
-  - congruence.
+  - exact (eq_true_false_abs _ Hr E).
   - exact (proj1 (Hc k Hk) E).
   - exact (proj2 (Hc k Hk) E).
 Qed.
@@ -90,3 +90,19 @@ Proof. intro H.
   assert (S : spec_project (pre ++ f :: post) = spec_project (pre ++ post)).
   { unfold spec_project. rewrite !flat_map_app. cbn [flat_map]. rewrite (ignored_spec_file f H). reflexivity. }
   unfold layout_declared, layout_reachable. rewrite !scanned_spec, S. auto. Qed.
+
+(* the sample walk: Cache (defined only below target/) and Deep (only below src/targets/target/) are outside the
+   specification's set although BuildPlan mentions them; by the membership theorem, not by running the worklist *)
+Ltac excluded_only :=
+  let comps := fresh "comps" in let its := fresh "its" in let d := fresh "d" in
+  let Hl := fresh "Hl" in let Hd := fresh "Hd" in let Hn := fresh "Hn" in
+  apply only_excluded_not_reached; intros comps its d Hl Hd Hn;
+  unfold sample_walk in Hl; cbn [In] in Hl;
+  repeat (destruct Hl as [Hl|Hl];
+          [first [ discriminate Hl
+                 | injection Hl as <- <-;
+                   first [ right; exists (L "target"); split; [vm_compute; tauto|left; reflexivity]
+                         | exfalso; cbn in Hd; repeat (destruct Hd as [<-|Hd]; [vm_compute in Hn; discriminate Hn|]); exact Hd ] ]
+          | ]); contradiction.
+Lemma sample_not_reached : ~ LayoutSpecReach sample_walk (L "Cache") /\ ~ LayoutSpecReach sample_walk (L "Deep").
+Proof. split; excluded_only. Qed.
